@@ -695,7 +695,7 @@ def apply_spec(cfg, regions, alarm):
 
 def bank_words(regions):
     """The bank list as sent to the Lean driver: `<page> <size> ...` per region in export order."""
-    return " ; ".join(" ".join([str(R.page)] + [str(r.size) for r in R.regs]) for R in regions)
+    return " ; ".join(" ".join([str(R.page)] + [str(r.size) + ("p" if r.kind == "csr" else "") for r in R.regs]) for R in regions)
 
 
 R_CSR8 = "C14-csr8-stride"
@@ -1222,6 +1222,22 @@ def check_soc(cfg, seed=0, max_regs=None, max_words=None):
                     alarm("load @0x%x (%s of region %s): the bus hangs" % (a, what, name))
                 continue
             sel = sorted(hits["s"])
+            if len(soc.bus.slaves) > 1 or len(soc.bus.masters) > 1:
+                names_ = list(soc.bus.slaves)
+                reg_words = []
+                for n_ in names_:
+                    rc_ = next((x for x in cfg.get("rams", []) if x["name"] == n_), None)
+                    if n_ == "csr":
+                        o_, z_ = csr_base, 4 << aw
+                    elif rc_ is not None and rc_["origin"] is not None:
+                        o_, z_ = rc_["origin"], rc_["size"]
+                    else:
+                        o_, z_ = pub[n_][0], (rc_["size"] if rc_ else pub[n_][1])   # automatic origin: as published
+                    reg_words.append("%d %d %d %d" % (names_.index(n_), o_, z_, 1))
+                real_e = " ".join("%d:%d:%d" % (names_.index(n_), pub[n_][0], pub[n_][1]) for n_ in names_)
+                real_s = " ".join(str(names_.index(n_)) for n_ in names_ if n_ in hits["s"]) or "-"
+                rec["lean"].append(("slaves %d %d %d ; %s" % (cfg.get("bus_aw", 32), cfg["bus_dw"], a // (cfg["bus_dw"] // 8),
+                                                            " ; ".join(reg_words)), "%s # %s" % (real_e, real_s)))
             if own and sel != own:
                 alarm("load @0x%x (%s of region %s, published in %s): slaves addressed %s" % (a, what, name, own, sel),
                       R_AXIL_RD if False else None)
@@ -1807,8 +1823,11 @@ def _stub_cpu_cls():
         gcc_triple, gcc_flags, linker_output_format, nop = "none", "", "elf32-little", "nop"
         io_regions = {0x8000_0000: 0x8000_0000}
 
+        own_interrupts = {}
+
         def __init__(self, platform, variant="standard"):
             self.platform, self.variant = platform, variant
+            self.interrupts = dict(C14StubCPU.own_interrupts)   # the CPU's own (reserved) interrupt names
             self.reset = Signal()
             self.interrupt = Signal(32)
             self.dbus = wishbone.Interface(data_width=32, address_width=32, addressing="word")
@@ -1829,8 +1848,14 @@ def irq_case(args):
     from litex.soc.interconnect.csr_eventmanager import EventManager, EventSourceLevel
     seed, = args
     rng = random.Random(seed)
-    _stub_cpu_cls()
+    stub = _stub_cpu_cls()
+    stub.own_interrupts = {"cpuirq": rng.choice((1, 5, 30))} if rng.random() < 0.4 else {}
     alarms, stats = [], {}
+    ids = {}            # name -> number used in the model call
+
+    def nid(n_):
+        return ids.setdefault(n_, len(ids))
+    ops = ["E"] + ["A %d %d 0" % (nid(n_), l_) for n_, l_ in stub.own_interrupts.items()]
     envshim.quiet_stderr()
     plat = SimPlatform("SIM", _IO)
     with_timer = rng.random() < 0.6
@@ -1850,8 +1875,10 @@ def irq_case(args):
     finally:
         if tmpd:
             shutil.rmtree(tmpd, ignore_errors=True)
+    if with_timer:
+        ops.append("A %d N 1" % nid("timer0"))
     names, fixed = [], {}
-    used = set()
+    used = set(stub.own_interrupts.values())
     for k in range(rng.randint(1, 4)):
         m = LiteXModule()
         m.ev = EventManager()
@@ -1861,17 +1888,17 @@ def irq_case(args):
         setattr(soc, name, m)
         if rng.random() < 0.5:
             n = rng.choice((31, rng.randrange(32), rng.randrange(32)))
-            if n not in used and not (with_timer and n == 0 and False):
-                try:
-                    soc.irq.add(name, n)
-                    fixed[name] = n
-                    used.add(n)
-                except SoCError:
-                    envshim.quiet_stderr()
-                    soc.irq.add(name, use_loc_if_exists=True)
-            else:
+            # a pinned request (it may collide with a granted location: refused, then an automatic one is taken)
+            ops.append("A %d %d 0" % (nid(name), n))
+            try:
+                soc.irq.add(name, n)
+                fixed[name] = n
+            except SoCError:
+                envshim.quiet_stderr()
+                ops.append("A %d N 1" % nid(name))
                 soc.irq.add(name, use_loc_if_exists=True)
         else:
+            ops.append("A %d N 1" % nid(name))
             soc.irq.add(name, use_loc_if_exists=True)
         used.add(soc.irq.locs[name])
         names.append(name)
@@ -1883,7 +1910,13 @@ def irq_case(args):
     ex = run_exports(b)
     tb = Tb(b)
     irqs = dict(soc.irq.locs)
+    raised = {}
+    for name in stub.own_interrupts:
+        if (name.upper() + "_INTERRUPT") in soc.constants:
+            alarms.append("CPU-owned interrupt %s was exported as a constant" % name)
     for name, loc in irqs.items():
+        if name in stub.own_interrupts:
+            continue
         c = name.upper() + "_INTERRUPT"
         if soc.constants.get(c) != loc or ex.json["constants"].get(c.lower()) != loc or \
                 ("#define %s %d\n" % (c, loc)) not in ex.soc_header or ex.csv["constant"].get(c.lower()) != str(loc):
@@ -1895,6 +1928,8 @@ def irq_case(args):
         alarms.append("SVD export crashed: %s" % ex.svd_error)
     else:
         for name, loc in irqs.items():
+            if name.upper() not in ex.svd:      # a CPU-owned interrupt has no peripheral entry
+                continue
             if ex.svd.get(name.upper(), {}).get("irq") != loc:
                 alarms.append("SVD interrupt of %s: %r, IRQ location %d" % (name, ex.svd.get(name.upper(), {}).get("irq"), loc))
     if ex.json["constants"].get("config_cpu_interrupts") != max(irqs.values()) + 1:
@@ -1911,6 +1946,7 @@ def irq_case(args):
         tb.set_reg(mod.ev.src.trigger, 1)
         tb.nl.tick()
         got = tb.get(soc.cpu.interrupt)
+        raised[name] = [k_ for k_ in range(32) if (got >> k_) & 1 and not (before >> k_) & 1]
         if got != before | (1 << loc) or before & (1 << loc):
             alarms.append("%s_INTERRUPT = %d but firing the event takes cpu.interrupt from 0x%x to 0x%x" % (name.upper(), loc, before, got))
         pend = ex.header.read(name + "_ev_pending", lambda a: tb.load32(a)[0])
@@ -1942,7 +1978,22 @@ def irq_case(args):
                 if sorted(hits["s"]) != [name]:
                     alarms.append("load @0x%x of published region %s addresses slaves %s" % (a, name, sorted(hits["s"])))
             stats["regions"] = stats.get("regions", 0) + 1
-    return {"alarms": alarms, "stats": stats, "irqs": irqs, "input": {"kind": "irq", "seed": seed}}
+    # the model call: b-c13's LocH run on the same requests, then the export / wiring functions of C14
+    mods = [n_ for n_ in irqs if n_ not in stub.own_interrupts]
+    line = "irq 32 ; O %s ; M %s ; %s ; %s" % (" ".join(str(nid(n_)) for n_ in stub.own_interrupts), " ".join(str(nid(n_)) for n_ in mods),
+                                            " ; ".join(ops), " ; ".join("F %d" % nid(n_) for n_ in names))
+    consts = {n_: soc.constants.get(n_.upper() + "_INTERRUPT") for n_ in irqs if (n_.upper() + "_INTERRUPT") in soc.constants}
+    sp = lambda l: " ".join(l) or "-"
+    real = " # ".join([sp(["%d:%d" % (nid(n_), l_) for n_, l_ in irqs.items()]),
+                       sp(["%d:%d" % (nid(n_), l_) for n_, l_ in irqs.items() if n_ in consts and consts[n_] == l_]),
+                       None, str(ex.json["constants"].get("config_cpu_interrupts")),
+                       " | ".join(sp([str(k_) for k_ in raised.get(n_, [])]) for n_ in names)])  if False else None
+    real = {"locs": sp(["%d:%d" % (nid(n_), l_) for n_, l_ in irqs.items()]),
+            "consts": sp(["%d:%d" % (nid(n_), consts[n_]) for n_ in irqs if n_ in consts]),
+            "cpuints": str(ex.json["constants"].get("config_cpu_interrupts")),
+            "lines": " | ".join(sp([str(k_) for k_ in raised.get(n_, [])]) for n_ in names),
+            "wired": {nid(n_): raised.get(n_) for n_ in names}}
+    return {"alarms": alarms, "stats": stats, "irqs": irqs, "line": line, "real": real, "input": {"kind": "irq", "seed": seed}}
 
 
 def sweep_task(args):
@@ -1955,3 +2006,35 @@ def verdict_task(args):
 
 def irq_task(args):
     return guarded(irq_case, "irq")(args)
+
+
+def const_case(args):
+    """`SoC.add_constant` histories on a real SoC object against `addConstants` (duplicate declarations are refused)."""
+    seed, = args
+    rng = random.Random(seed)
+    envshim.quiet_stderr()
+    soc = SoCMini(SimPlatform("SIM", _IO), clk_freq=int(1e6), with_ctrl=False)
+    before = set(soc.constants)
+    seq, verdict = [], "ok"
+    for _ in range(rng.randint(1, 7)):
+        k, v = rng.randrange(5), rng.randint(-4, 40)
+        seq.append((k, v))
+        try:
+            soc.add_constant("c14_k%d" % k, v)
+        except SoCError:
+            envshim.quiet_stderr()
+            verdict = "rejected"
+            break
+    mine = [(n_, v_) for n_, v_ in soc.constants.items() if n_ not in before]
+    real = "rejected" if verdict == "rejected" else "ok " + " ".join("%d:%d" % (int(n_[len("C14_K"):]), v_) for n_, v_ in mine)
+    hdr = export.get_soc_header(soc.constants)
+    alarm = None
+    for n_, v_ in mine:
+        if hdr.count("#define %s %d\n" % (n_, v_)) != 1 or hdr.count("#define %s " % n_) != 1:
+            alarm = "constant %s = %d is not defined exactly once in soc.h" % (n_, v_)
+    return {"line": "constants " + " ".join("%d:%d" % p for p in seq), "real": real, "alarm": alarm,
+            "input": {"kind": "constants", "seed": seed}}
+
+
+def const_task(args):
+    return guarded(const_case, "constants")(args)
